@@ -64,6 +64,9 @@ func (h *vfC06) scan() {
 					h.t.Fatalf("connection %d received query %d (exchange %d) while the reply to its previous query (exchange %d) had only been sent up to octet %d of %d: more than one outstanding query on a non-pipelined connection",
 						c.ID, n, tok, qs[n-1].token, qs[n-1].sent, len(qs[n-1].reply))
 				}
+				if !c.Drained() {
+					h.t.Fatalf("connection %d received query %d (exchange %d) while octets of the reply to its previous query (exchange %d, a reply of %d octets) are still unread on it: reused before the complete reply had been consumed", c.ID, n, tok, qs[n-1].token, len(qs[n-1].reply))
+				}
 				if qs[n-1].garbage {
 					h.t.Fatalf("connection %d was reused for exchange %d after the reply to its previous query could not be consumed without error (undecodable body)", c.ID, tok)
 				}
@@ -75,6 +78,11 @@ func (h *vfC06) scan() {
 			h.nextRT++
 			q := &vfC06Query{token: tok, wireID: wid, replyTok: h.nextRT}
 			q.reply = vfFrame(vfReply(wid, tok, q.replyTok))
+			if tok%4 == 3 {
+				// every fourth reply is a big one (zone-transfer-like answers, long TXT sets): up to the largest a frame holds
+				size := []int{300, 5000, 16500, 33000, 60000, 65000}[(tok/4)%6]
+				q.reply = vfFrame(vfReplyWithTail(wid, tok, q.replyTok, bytes.Repeat([]byte{byte(tok)}, size)))
+			}
 			h.replyOf[q.replyTok] = tok
 			h.queries[c.ID] = append(qs, q)
 			h.byTok[tok] = append(h.byTok[tok], vfWire{c.ID, uint16(len(qs))})
@@ -170,6 +178,9 @@ func (h *vfC06) pending() []int {
 func (h *vfC06) send(conn int, n int) {
 	qs := h.queries[conn]
 	q := qs[len(qs)-1]
+	if len(q.reply) > 2000 && n < 100 {
+		n = n * len(q.reply) / 12 // the chunks of a big reply are big (a chunk of 1-9 octets would need thousands of steps)
+	}
 	if n > len(q.reply)-q.sent {
 		n = len(q.reply) - q.sent
 	}
